@@ -1229,7 +1229,13 @@ def reduction(
         )
 
     if not keepdims:
-        axis_to_squeeze = tuple(i for i in axis if result.shape[i] == 1)
+        # an axis with an explicit combine size (e.g. the group axis of a
+        # groupby reduction) is retained even if that size happens to be one
+        axis_to_squeeze = tuple(
+            i
+            for i in axis
+            if result.shape[i] == 1 and i not in (combine_sizes or {})
+        )
         if len(axis_to_squeeze) > 0:
             result = squeeze(result, axis_to_squeeze)
 
